@@ -1176,10 +1176,71 @@ fn marks_of(lay: &[(u64, usize)]) -> Vec<u64> {
     m
 }
 
+/// C14 "any other stream error ends the transfer and is reported" — for an error that is not an `IOError`: a stream whose
+/// `read_volatile`/`write_volatile` fails with `PartialBuffer { expected: 77777, completed: 5 }` after some progress.  Every
+/// stream entry point, at region and at guest-memory level, must report exactly that error and must not call the stream
+/// again.  (Oracle-only probe: the model abstracts from the shape of a stream's error, `Beh.fail`.)
+#[cfg(not(feature = "xen"))]
+fn foreign_error_probe(rec: &mut Rec) {
+    use vm_memory::bitmap::BitmapSlice;
+    use vm_memory::{ReadVolatile, VolatileMemoryError, VolatileSlice, WriteVolatile};
+    struct S { calls: usize, fail_at: usize, after_failure: usize }
+    impl S {
+        fn step(&mut self, len: usize) -> Result<usize, VolatileMemoryError> {
+            self.calls += 1;
+            if self.calls > self.fail_at + 1 { self.after_failure += 1; }
+            if self.calls == self.fail_at + 1 {
+                Err(VolatileMemoryError::PartialBuffer { expected: 77777, completed: 5 })
+            } else {
+                Ok(len.min(3))
+            }
+        }
+    }
+    impl ReadVolatile for S {
+        fn read_volatile<B: BitmapSlice>(&mut self, buf: &mut VolatileSlice<B>) -> Result<usize, VolatileMemoryError> {
+            let n = self.step(buf.len())?;
+            buf.subslice(0, n)?.copy_from(&vec![0xabu8; n][..]);
+            Ok(n)
+        }
+    }
+    impl WriteVolatile for S {
+        fn write_volatile<B: BitmapSlice>(&mut self, buf: &VolatileSlice<B>) -> Result<usize, VolatileMemoryError> {
+            self.step(buf.len())
+        }
+    }
+    let gm = GuestMemoryMmap::<()>::from_ranges(&[(GuestAddress(0x1000), 0x10), (GuestAddress(0x1010), 0x20)]).unwrap();
+    let reg = gm.find_region(GuestAddress(0x1000)).unwrap();
+    let is_it = |e: &GuestMemoryError| matches!(e, GuestMemoryError::PartialBuffer { expected: 77777, completed: 5 });
+    for fail_at in 0..4usize {
+        let mut check = |what: &str, r: Result<usize, GuestMemoryError>, s: &S| {
+            let ok = matches!(&r, Err(e) if is_it(e)) && s.after_failure == 0;
+            if !ok {
+                rec.fail("C14", &format!("foreign-error/{}", what), &format!("stream failing at call {} with PartialBuffer{{77777,5}}: result {:?}, calls after the failure {}", fail_at + 1, r, s.after_failure));
+            }
+        };
+        let mk = || S { calls: 0, fail_at, after_failure: 0 };
+        let mut s = mk(); let r = reg.read_volatile_from(MemoryRegionAddress(1), &mut s, 0x1f).map(|n| n + 100000 * (fail_at == usize::MAX) as usize);
+        // the up-to forms return after one stream call: they can only report the error when it is the first call
+        if fail_at == 0 { check("region-read", r, &s); }
+        let mut s = mk(); let r = reg.read_exact_volatile_from(MemoryRegionAddress(1), &mut s, 0xe).map(|_| 0); check("region-read-exact", r, &s);
+        let mut s = mk(); let r = reg.write_volatile_to(MemoryRegionAddress(1), &mut s, 0xe); if fail_at == 0 { check("region-write", r, &s); }
+        let mut s = mk(); let r = reg.write_all_volatile_to(MemoryRegionAddress(1), &mut s, 0xe).map(|_| 0); check("region-write-all", r, &s);
+        let mut s = mk(); let r = gm.read_volatile_from(GuestAddress(0x1008), &mut s, 0x20); if fail_at <= 1 { check("guest-read", r, &s); }
+        let mut s = mk(); let r = gm.read_exact_volatile_from(GuestAddress(0x1008), &mut s, 0x20).map(|_| 0); check("guest-read-exact", r, &s);
+        let mut s = mk(); let r = gm.write_volatile_to(GuestAddress(0x1008), &mut s, 0x20); if fail_at <= 1 { check("guest-write", r, &s); }
+        let mut s = mk(); let r = gm.write_all_volatile_to(GuestAddress(0x1008), &mut s, 0x20).map(|_| 0); check("guest-write-all", r, &s);
+    }
+    rec.note("foreign_error_probes");
+}
+
 pub fn run(rec: &mut Rec, rng: &mut Rng, n_ops: usize, mode: &str) {
     #[cfg(feature = "xen")]
     if mode == "xen" {
         xen_probes(rec);
+    }
+    #[cfg(not(feature = "xen"))]
+    if mode == "mixed" {
+        foreign_error_probe(rec);
     }
     let mut g = Gen { w: GmWorld::new(), rec, next_rid: 0, xk: "unix" };
     let xen = mode == "xen";
